@@ -78,7 +78,9 @@ def observe(src, stages, literal=False, aliases=None):
 
 
 def correspondence(run):
-    sc.coverage_report(run)
+    reg, mod = sc.coverage_report(run)
+    print("[C13] registered names of queries.py/collections.py: %d, modelled: %d, NOT modelled (reported as uncovered): %s" % (
+        len(reg), len([n for n in reg if n in mod]), ", ".join(sorted(n for n in reg if n not in mod)) or "-"), flush=True)
     todo = []
     for c in load_corpus():
         todo.append((c["src"], c["stages"], c.get("literal", False), None))
@@ -122,9 +124,11 @@ def model_result(run, src, stages):
 def shrink(run, src, stages, literal, aliases):
     """one round of candidates (drop a stage / shorten the source), all evaluated in one Coq call"""
     cands = []
-    for j in range(len(stages)):
+    # set iteration order is outside the model: pipelines that go through a set keep their stages
+    unordered = src[0] == "set" or any(s[0] == "toSet" for s in stages)
+    for j in range(len(stages) if not unordered else 0):
         cands.append((src, stages[:j] + stages[j + 1:]))
-    for j in range(1, len(stages)):
+    for j in range(1, len(stages) if not unordered else 0):
         cands.append((src, stages[:j]))
     if src[0] in ("tuple", "iter", "set", "dict"):
         for k in range(len(src[1])):
@@ -132,7 +136,11 @@ def shrink(run, src, stages, literal, aliases):
     terms, keep = [], []
     for s2, st2 in cands:
         try:
+            if any(s[0] == "cycle" for s in st2) and not any(a[0] == "cycle" and b[0] == "take" for a, b in zip(st2, st2[1:])):
+                continue          # endless without its take: not a case of the property
             _, o = observe(s2, st2, literal, None)
+            if o[0] == "err" and o[1] == "EOther":
+                continue
             terms.append(sc.case_term(s2, st2, o))
             keep.append((s2, st2))
         except Exception:
@@ -404,6 +412,13 @@ def differential(run, lists):
 
 
 def oracle(run, deep):
+    path = os.path.join(HERE, "corpus", "C13.json")
+    if os.path.exists(path):
+        for c in json.load(open(path)):
+            if c.get("kind") == "law":
+                check_laws_on(run, sc.fromjson(c["input"]))
+            elif c.get("kind") == "differential":
+                differential(run, [sc.fromjson(c["input"])])
     lists = small_lists(run, deep)
     for l in lists:
         check_laws_on(run, l)
